@@ -236,7 +236,20 @@ func TestC05(t *testing.T) {
 				continue
 			}
 			f := &tls.Fingerprinter{}
-			for k := 0; k < 3; k++ {
+			for k := 0; k < 6; k++ {
+				// k >= 3: the same capture as another stack would have sent it, with a legacy_session_id
+				// of another length (empty as in QUIC / TLS 1.2-style hellos, 8, 16 bytes); the padding
+				// is large enough to absorb the difference to the 32 bytes utls sends
+				if k >= 3 {
+					if cch.PaddingLen < 48 {
+						continue
+					}
+					sidLen := []int{0, 8, 16}[k-3]
+					c2 := *cch
+					c2.SessionID = cch.SessionID[:sidLen]
+					capRaw = marshalCH(&c2, cch.Exts, true)
+					r.Count("captures_with_short_session_id", 1)
+				}
 				spec, err := f.FingerprintClientHello(recordOf(capRaw))
 				if err != nil {
 					r.Violation(map[string]string{"kind": "fingerprint_error", "parrot": p.Name}, err.Error(), nil)
